@@ -83,6 +83,24 @@ CLAIMED = {
         note='Trusted: Coq kernel, extraction, hand-written model of markdown_renderer.py, document generator, finding classifiers. No theorem yet covers the parse half of the round trip.',
         technique='Coq proof of the renderer half (induction over fragment lists) + extracted-model correspondence; round-trip clauses by generator-oracle',
         design='5/C09'),
+    'C02': dict(
+        text='The quantifier domain is finite (652 examples) and decided exactly: the Coq kernel evaluates the whole-pipeline Gallina model (regex engine on '
+             'the regenerated patterns, block phase, inline phase, HTML renderer) on every example and checks exact equality with the expected HTML '
+             '(vm_compute, lifted with forallb_forall); on every run the implementation is also run on every example and compared with the model and with '
+             'the expected HTML, so impl(ex) = model(ex) = expected(ex) for each ex.',
+        note='Trusted: Coq kernel incl. vm_compute, extraction, the hand-written control flow of the parser model (tied by exhaustive correspondence on the '
+             'corpus and by X-doc on tens of thousands of other documents), translators for patterns/tables/configuration/escapes, vendored corpus.',
+        technique='Coq proof by kernel evaluation of the pipeline model on the complete corpus + exhaustive correspondence',
+        design='5/C02'),
+    'C07': dict(
+        text='Theorems for ALL definition lists, keys and documents about the parser model: the footnote map returns, for a key, the value of the FIRST '
+             'definition in document order whose normalised label equals it; the map every inline parse uses is that of the whole document (two phases), with '
+             'containers transparent to document order; definitions build no token. Model tied by X-doc (tree + Document.footnotes with order). Oracle: '
+             'generated documents with definitions at every kind of block boundary and nesting, near-duplicate labels, vs the resolved href/title.',
+        note='Trusted: Coq kernel, extraction, parser model (correspondence-checked), translators, placement generator. The syntax of a definition is the '
+             'model of Footnote.read (tied by correspondence and C02), not specified independently.',
+        technique='Coq proof (induction over definition lists) + extracted-model correspondence + generator oracle',
+        design='5/C07'),
 }
 
 NOT_YET = {}
